@@ -87,7 +87,7 @@ func analyseDeterminism(as AnalysisSpec, progs []*Program, cs *Contracts, funcs 
 							if sc.Pkg != nil && strings.HasPrefix(sc.Pkg.Pkg.Path(), p.ModPrefix) {
 								name = p.FuncKey(sc)
 							}
-							if (forbidden[name] || (sc.Pkg != nil && forbidden[sc.Pkg.Pkg.Path()+".*"])) && !strings.Contains(","+as.Args["allow_forbidden"]+",", ","+name+"@"+key+",") {
+							if (forbidden[name] || (sc.Pkg != nil && forbidden[sc.Pkg.Pkg.Path()+".*"])) && !allowedForbidden(as.Args["allow_forbidden"], name, key) {
 								det.Result, det.Why = "failed", "call to "+name+" at "+p.Pos(x.Pos())+" in "+key
 							}
 							if name == "os.OpenFile" && len(x.Call.Args) >= 2 {
@@ -375,4 +375,21 @@ func rootAlloc(v ssa.Value) *ssa.Alloc {
 		}
 	}
 	return nil
+}
+
+// allowedForbidden: "callee@pkg.Func" allows the call in that function; "callee@pkg.*" anywhere in that package.
+func allowedForbidden(list, name, key string) bool {
+	for _, it := range strings.Split(list, ",") {
+		it = strings.TrimSpace(it)
+		if it == name+"@"+key {
+			return true
+		}
+		if strings.HasSuffix(it, ".*") && strings.HasPrefix(it, name+"@") {
+			pk := strings.TrimSuffix(strings.TrimPrefix(it, name+"@"), "*")
+			if strings.HasPrefix(key, pk) && !strings.Contains(key[len(pk):], ".") {
+				return true
+			}
+		}
+	}
+	return false
 }
